@@ -102,7 +102,8 @@ def harnesses(t):
     argv, kw = _Subprocess.calls[0]
     return same_parser and argv == want and kw.get("capture_output") is True and kw.get("text") is True and kw.get("check") is True \\
         and _RecordingParser.seen == [out] and _Consumer.finalized == 1
-''', timeout=T, prelude=PRE, key="binary_route", note="symbolic sections list (0-3 names), symbolic presence of valid_addr_range and the full-match flags, symbolic objdump output text, symbolic file name"))
+''', timeout=T, prelude=PRE, key="binary_route", note="symbolic sections list (0-3 names), symbolic presence of valid_addr_range and the full-match flags, symbolic objdump output text, symbolic file name",
+                       probe=[f"argv_{tag}({n}, True, {hr}, False, False, {'.text'[:tp[0]]!r}, {'.init'[:tp[1]]!r}, {'.fini'[:tp[2]]!r}, 'out', 'f')" for n in (0, 1, 2, 3) for hr in (False, True)]))
     hs.append(ch.H("c15/two_runs", '''def two_runs(n: int, s1: str, f1: str, f2: str) -> bool:
     """
     pre: 0 <= n <= 1 and len(s1) == 2 and len(f1) == 1 and len(f2) == 1
